@@ -259,6 +259,57 @@ fn add_case(k: u32, a: u64, n: u64) -> Value {
     first.unwrap_or(json!({"no_offsets": true}))
 }
 
+/// `Timestamp::to_system_time`: the k-bit case (reference time ref = era *
+/// 2^k + r, serial ts) is lifted with independent offsets on the reference
+/// (c_r) and on the serial (c_ts): the lifted signed distance is
+/// 2^(32-k) * d_k + (c_ts - c_r), which stays strictly inside (-2^31, 2^31)
+/// whenever the k-bit distance d_k is not 2^(k-1), so the placed time is
+/// exactly Place_k * 2^(32-k) + c_ts.  Cases the spec leaves unconstrained
+/// (distance exactly half a cycle, placement before the epoch) carry
+/// free = true and are executed for totality only.
+fn place_case(k: u32, refk: u64, ts: u64, free: bool) -> Value {
+    let sh = 32 - k;
+    let s: u64 = 1u64 << sh;
+    let (era, r) = (refk >> k, refk & ((1u64 << k) - 1));
+    let mut rng = Rng::new(seed() ^ (refk << 23) ^ (ts << 7) ^ (k as u64) << 43);
+    let mut offs: Vec<(u64, u64)> = vec![(0, 0), (s - 1, s - 1)];
+    if !free {
+        offs.extend_from_slice(&[(1 % s, 0), (0, 1 % s), (s - 1, 0), (0, s - 1),
+                                 (rng.below(s), rng.below(s))]);
+    }
+    offs.sort();
+    offs.dedup();
+    let mut first: Option<Value> = None;
+    for (c_r, c_ts) in offs {
+        let ref32 = (era << 32) + (r << sh) + c_r;
+        let ts32 = ((ts << sh) + c_ts) as u32;
+        let placed = lib_place(ts32, ref32);
+        let obs = if free {
+            // totality and requirement 1 of the documentation only
+            match placed {
+                Some(t) if t as u32 == ts32 => json!({"timestamp": "any"}),
+                other => json!({"timestamp": {"free_case_broken": other}}),
+            }
+        } else {
+            match placed {
+                Some(t) if t >= c_ts && (t - c_ts) % s == 0 => {
+                    json!({"timestamp": {"t": (t - c_ts) >> sh}})
+                }
+                other => json!({"timestamp": {"badlift": other, "ref32": ref32, "ts32": ts32}}),
+            }
+        };
+        match &first {
+            None => first = Some(obs),
+            Some(f) if *f != obs => {
+                return json!({"offsets_disagree": {"c_r": c_r, "c_ts": c_ts, "ref32": ref32,
+                                                   "ts32": ts32, "first": f, "this": obs}});
+            }
+            _ => {}
+        }
+    }
+    first.unwrap_or(json!({"no_offsets": true}))
+}
+
 fn main() {
     run_cases(|input| {
         let k = input["k"].as_u64().unwrap_or(0) as u32;
@@ -269,6 +320,12 @@ fn main() {
         match input["kind"].as_str() {
             Some("cmp") => cmp_case(k, a, input["b"].as_u64().unwrap_or(0)),
             Some("add") => add_case(k, a, input["n"].as_u64().unwrap_or(0)),
+            Some("place") => place_case(
+                k,
+                input["ref"].as_u64().unwrap_or(0),
+                input["ts"].as_u64().unwrap_or(0),
+                input["free"].as_bool().unwrap_or(false),
+            ),
             _ => json!({"bad_case": true}),
         }
     });
